@@ -113,6 +113,20 @@ CLAIMED['C16'] = dict(
     technique='contract-based deductive verification: Python ast -> VC generator (loop invariants, ghost cut points, least-fixed-point schema) -> z3; bounded native sweep for the surround',
     design='3 C16')
 
+CLAIMED['C11'] = dict(
+    text='Unbounded proof over the real source of pytd_utils.JoinTypes, the function every union built by the optimiser passes through: '
+         'the result admits a value iff one of the inputs does (never narrower, never wider: den(result) = OR den(t_i) for an arbitrary value, '
+         'with Nothing = empty, Any = everything, union = disjunction), is in normal form (a union has >= 2 members, none a union or Nothing, '
+         'no duplicates), and joining the members of a result gives the same result (idempotence, proved as a lemma over the contract). '
+         'All optimiser passes (CombineContainers, CombineReturnsAndExceptions, superclass simplification, CollapseLongUnions, ...) and '
+         'Optimize as a whole are covered only by a bounded sweep against a finite value model (widening and idempotence). '
+         'Known finding F8: Optimize is not idempotent when signatures coincide only after a later pass.',
+    note='Trusted: engine/, z3, A-EQ (node equality is an equivalence respected by node functions), A-DEN, A-CTOR (UnionType(...) flattens '
+         'and de-duplicates: pytd._FlattenTypes assumed), A-LIB (deque as list). Unverified surround: every visitor class of optimize.py, '
+         'visitors.py, the pass pipeline.',
+    technique='contract-based deductive verification: Python ast -> VC generator (loop invariant, anchored lemma, proof harness) -> z3; bounded native sweep vs a value model for the surround',
+    design='3 C11')
+
 NOT_APPLICABLE = {
     'C01': 'whole abstract interpreter vs CPython execution: no function-level contract expresses over-approximation of execution (DESIGN 4)',
     'C02': 'decided by matcher.py (2000 lines) on live VM values; the inhabitant oracle quantifies over programs, not one call (DESIGN 4)',
